@@ -32,8 +32,18 @@ def main(run):
             mid = list(range(2, n - 1)); rng.shuffle(mid)
             xi = xi[[0, 1] + mid + [n - 1]]
             stats["unsorted_sets"] = stats.get("unsorted_sets", 0) + 1
+        # spin-echo lengths read from a file of whole numbers arrive as an INTEGER array: same values, same transform
+        if t % 3 == 2 and n >= 2:
+            xi = np.unique(np.round(xi).astype(np.int64))
+            if len(xi) >= 2:
+                stats["integer_length_sets"] = stats.get("integer_length_sets", 0) + 1
+            else:
+                xi = np.array([int(lo), int(lo) * 3], dtype=np.int64)
+            n = len(xi)
         lam = rng.choice([2.0, 5.0, 8.0])
         theta_max = rng.choice([math.pi / 2, 0.05, 0.01, 0.002])
+        if t % 3 == 2:
+            theta_max = rng.choice([0.05, 0.01])        # an acceptance well below 1 1/A
         zacc = 2 * math.pi / lam * math.sin(theta_max)
         tr = SesansTransform(xi, xi, np.full(len(xi), lam), zacc, 1e7)
         q = np.asarray(tr.q_calc)
